@@ -13,6 +13,8 @@ R14.2 (inventory, recomputed from the type-checked program) a *mutable handle* i
       constructor / Default of that type); `Table::get_mut` is called only from methods of mutable handles.
 R14.3 every mutable handle is invariant in its value-type parameters.
 R14.4 the only unsafe impls of auto traits are Send / Sync for Table, bounded by P, T: Send resp. Sync.
+R14.6 unsafe inventory: outside inner.rs every unsafe operation is a call of one of the crate's own unsafe mutable-handle
+      constructors or of Table::get_mut (no transmute, no raw pointers, no foreign unsafe function).
 R14.5 single visit: in every step of every `*_mut` traversal `get_mut` is applied only to the index (indices) of the entry
       popped in this step — one per table — so, the arena being a tree (C15), no slot is mutably borrowed twice.
 Not decided: the schedule clause (concurrent = sequential) beyond disjointness + the auto-trait bounds; aliasing-model UB.
@@ -34,6 +36,7 @@ def declare(rep):
     rep.rule("R14.2", "mutable-handle inventory: witnesses exist for each; constructors only from exclusive receivers; get_mut callers are handle methods")
     rep.rule("R14.3", "mutable handles invariant in their value-type parameters")
     rep.rule("R14.4", "unsafe impl Send/Sync only for Table, with the P,T: Send / Sync bounds")
+    rep.rule("R14.6", "outside inner.rs the only unsafe operations are the crate's own handle constructors and Table::get_mut")
     rep.rule("R14.5", "get_mut only on the indices of the entry popped in the same step, one per table")
 
 
@@ -198,6 +201,29 @@ def run_config(ctx, rep, cfg, F):
         else:
             rep.bad("R14.4", "unsafe impl %s for %s" % (tr, F.short_ty(i["self_ty"])), "bounds", "unsafe impl %s for %s with bounds %s: only Table may carry "
                     "unsafe auto-trait impls, and only with P, T: %s" % (tr, F.short_ty(i["self_ty"]), sorted(preds), tr), config=cfg)
+    # ---- R14.6: unsafe operations outside inner.rs are calls of the crate's own unsafe constructors / accessor only
+    from ..facts import find_all
+    n_unsafe_calls = 0
+    for f in F.lib_fns():
+        bodies = [(F.short_of[f["path"]], F.bodies[f["path"]])] + [(F.short_of.get(q, q), b) for q, b in F.bodies.items() if q.startswith(f["path"] + "::{closure")]
+        for bshort, body in bodies:
+            for n_, ps in find_all(body["thir"]["body"], lambda x: x["k"] == "FnRef" and x.get("unsafe")):
+                if n_.get("exp"):
+                    continue            # macro-generated (format_args!, derives)
+                n_unsafe_calls += 1
+                callee = n_["path"]
+                cf = F.fns.get(callee)
+                local_ok = cf is not None and cf.get("impl") and (callee == gm or (cf["name"] == "new" and F.adt_of(cf["impl_self_ty"]) in mut))
+                if local_ok or f["file"].endswith("inner.rs"):
+                    rep.ok("R14.6", bshort, "unsafe call of " + n_["name"])
+                else:
+                    rep.bad("R14.6", bshort, "foreign-unsafe:" + n_["name"], "%s (%s) calls the unsafe function %s: outside inner.rs the only unsafe operations "
+                            "may be the crate's own mutable-handle constructors and Table::get_mut (whose contracts R14.2 checks); anything else "
+                            "(transmute, raw pointers, lifetime extension) bypasses the borrow-based exclusivity argument" % (bshort, f["file"], callee), config=cfg)
+            for n_, ps in find_all(body["thir"]["body"], lambda x: x["k"] == "Deref" and isinstance(x.get("e"), dict) and "ty" in x["e"] and F.types[x["e"]["ty"]]["t"] == "ptr"):
+                if not f["file"].endswith("inner.rs") and not n_.get("exp"):
+                    rep.bad("R14.6", bshort, "raw-deref", "%s dereferences a raw pointer outside inner.rs" % bshort, config=cfg)
+    rep.floor("unsafe calls inventoried (%s)" % cfg, n_unsafe_calls, 10)
     # ---- R14.5
     n_steps = 0
     for op, spec in setops.OPS.items():
